@@ -441,7 +441,9 @@ class _VLock:
         return self._owner is not None
 
     def _is_owned(self):
-        return self._owner is not None and S is not None and self._owner is S.me()
+        if S is None:
+            return self._owner is not None
+        return self._owner is not None and self._owner is S.me()
 
 
 class _VRLock:
@@ -453,6 +455,7 @@ class _VRLock:
         s = S
         if s is None or not s.active:
             self._count += 1
+            self._owner = "x"
             return True
         me = s.me()
         if self._owner is me:
@@ -487,7 +490,9 @@ class _VRLock:
         self.release()
 
     def _is_owned(self):
-        return S is not None and self._owner is S.me()
+        if S is None:
+            return self._count > 0
+        return self._owner is S.me()
 
     def _release_save(self):
         st = (self._owner, self._count)
